@@ -145,7 +145,9 @@ def order(x):
 
 
 def ideal_digits(style, mode, n, fv, fe):
-    """digits per number in the correctly rounded text of the property (from the inputs alone)"""
+    """significant digits per number in the correctly rounded text of the property (from the inputs alone): from the
+    leading digit of the number to the last printed place; leading zeros of a small number in default style cost no
+    precision and do not count (0.0000000000322 +/- 0.0000000000012 has 3 and 2 digits)"""
     ex = 0
     if style != "default":
         ex = order(fv) if fv else (order(fe) if fe else 0)
@@ -153,11 +155,11 @@ def ideal_digits(style, mode, n, fv, fe):
     if not ref:
         return 1
     p = order(ref) - n + 1
-    d = max(0, ex - p)
+    last = ex - max(0, ex - p)          # exponent of the last printed place
     out = 1
     for x in (fv, fe):
         if x:
-            out = max(out, max(1, order(x) - ex + 1) + d)
+            out = max(out, order(x) - last + 1)
     return out
 
 
@@ -248,6 +250,31 @@ def powers_of_ten():
                     for n in range(1, 7):
                         if in_domain(style, mode, n, v, e):
                             yield style, mode, n, v, e
+
+
+def extremes():
+    """deterministic sub-stream, always run: the ends of the property's range of magnitudes.  Small numbers in DEFAULT
+    style need many decimals (up to 17 for 1e-12 with n = 6), large ones many integer digits; a cap or a precision
+    limit on either shows only here"""
+    for k in list(range(-12, -5)) + list(range(6, 12)):
+        p10 = F(10) ** k
+        for me, mv in ((F(1234, 1000), F(32178, 1000)), (F(9961, 1000), F(-4567, 1000)), (F(5, 1), F(123456, 1000)),
+                       (F(321987, 100000), F(123456789, 100000)), (F(25, 10), F(0))):
+            v, e = float(mv * p10), float(me * p10)
+            if not all(x == 0 or 1e-12 <= abs(x) <= 1e12 for x in (v, e)):
+                continue
+            for mode in MODES:
+                for style in STYLES:
+                    for n in range(1, 7):
+                        if in_domain(style, mode, n, v, e):
+                            yield style, mode, n, v, e
+
+
+def fixed_substream():
+    for c in powers_of_ten():
+        yield c
+    for c in extremes():
+        yield c
 
 
 # ---- Coq encoding ---------------------------------------------------------------------------------
@@ -373,7 +400,7 @@ def correspondence(ctx):
         add(v, e, rng.sample(configs, per_pair), "stream")
     n_pow = 0
     by_pair = {}
-    for (st, mo, n, v, e) in powers_of_ten():
+    for (st, mo, n, v, e) in fixed_substream():
         by_pair.setdefault((v, e), []).append((st, mo, n))
     for (v, e), cfgs in by_pair.items():
         add(v, e, cfgs, "powers-of-ten")
@@ -455,7 +482,11 @@ def check(style, mode, n, v, e, via="measurement"):
     out = run_impl(style, mode, n, v, e, via)
     if not isinstance(out, str):
         return "formatting {}: {}".format(out[0], out[1])
-    s = out
+    return check_text(out, style, mode, n, v, e)
+
+
+def check_text(s, style, mode, n, v, e):
+    """None, or why the text s is not the correctly rounded pair (v, e) under (style, mode, n)"""
     p = parse(s)
     if p is None:
         return "unreadable text {!r}".format(s)
@@ -628,12 +659,12 @@ def search(ctx, suspects, budget):
 
     # deterministic part, independent of the budget: exact powers of ten at every exponent
     n_pow = 0
-    for (st, mo, n, v, e) in powers_of_ten():
+    for (st, mo, n, v, e) in fixed_substream():
         if len(out) >= 3:
             break
         n_pow += 1
         report(case_of(st, mo, n, v, e))
-    ctx.notes.append("oracle: {} deterministic powers-of-ten cases".format(n_pow))
+    ctx.notes.append("oracle: {} deterministic cases (powers of ten at every exponent, ends of the magnitude range)".format(n_pow))
     while len(out) < 3:
         if todo:
             cases = [todo.pop(0)]
